@@ -145,4 +145,48 @@ int w_ksc(const uint8_t* a, const uint8_t* b, size_t* enc) {
   return x == y;
 }
 void h_ksc() { w_ksc((const uint8_t*)nondet_ptr(), (const uint8_t*)nondet_ptr(), (size_t*)nondet_ptr()); REACH; }
+
+// ---------------------------------------------------------------- Coin, PublicationData: encode, size, decode again
+int w_coin(int64_t units, int64_t* back, size_t* enc) {
+  Coin c(units);
+  WriteStream w;
+  c.toVbkEncoding(w);
+  *enc = w.data().size();
+  __CPROVER_assert(c.estimateSize() == w.data().size(), "estimateSize() == bytes written by toVbkEncoding()");
+  ReadStream r(w.data());
+  ValidationState st;
+  Coin d;
+  bool ok = DeserializeFromVbkEncoding(r, d, st);
+  *back = d.units;
+  __CPROVER_assert(!ok || r.remaining() == 0, "decoder consumes exactly the encoding");
+  return ok;
+}
+void h_coin() { w_coin((int64_t)nondet_size_t(), (int64_t*)nondet_ptr(), (size_t*)nondet_ptr()); REACH; }
+// f = [n1][3 bytes header][n2][3 bytes context][n3][3 bytes payout]; back = same layout for the decoded value
+int w_pubdata(int64_t id, const uint8_t* f, int64_t* back_id, uint8_t* back, size_t* enc) {
+  PublicationData p;
+  p.identifier = id;
+  p.header = std::vector<uint8_t>(f + 1, f + 1 + f[0]);
+  p.contextInfo = std::vector<uint8_t>(f + 5, f + 5 + f[4]);
+  p.payoutInfo = std::vector<uint8_t>(f + 9, f + 9 + f[8]);
+  WriteStream w;
+  p.toVbkEncoding(w);
+  *enc = w.data().size();
+  __CPROVER_assert(p.estimateSize() == w.data().size(), "estimateSize() == bytes written by toVbkEncoding()");
+  ReadStream r(w.data());
+  ValidationState st;
+  PublicationData q;
+  bool ok = DeserializeFromVbkEncoding(r, q, st);
+  *back_id = q.identifier;
+  for (int i = 0; i < 12; i++) back[i] = 0;
+  if (ok) {
+    back[0] = (uint8_t)q.header.size(); back[4] = (uint8_t)q.contextInfo.size(); back[8] = (uint8_t)q.payoutInfo.size();
+    for (size_t i = 0; i < q.header.size() && i < 3; i++) back[1 + i] = q.header.data()[i];
+    for (size_t i = 0; i < q.contextInfo.size() && i < 3; i++) back[5 + i] = q.contextInfo.data()[i];
+    for (size_t i = 0; i < q.payoutInfo.size() && i < 3; i++) back[9 + i] = q.payoutInfo.data()[i];
+    __CPROVER_assert(r.remaining() == 0, "decoder consumes exactly the encoding");
+  }
+  return ok;
+}
+void h_pubdata() { w_pubdata((int64_t)nondet_size_t(), (const uint8_t*)nondet_ptr(), (int64_t*)nondet_ptr(), (uint8_t*)nondet_ptr(), (size_t*)nondet_ptr()); REACH; }
 }
